@@ -2,7 +2,7 @@
 // Every element of the underlying exact-size block stores its own linear index; views are read through
 // every access form and written through; addresses are compared with pointer arithmetic on the block.
 // Build: -DVF_IDX=<index type> -DVF_IDX_NAME="..." [-DVF_PLO= -DVF_PHI= -DVF_PSTEP=]  (-std=c++23 adds operator[](i,j,...))
-// Case space: (pattern, shape in {0..4}^rank) x 8 groups; every case sweeps ALL multi-indices of the shape.
+// Case space: (pattern, shape in {0..4}^rank) x 9 groups; every case sweeps ALL multi-indices of the shape.
 #include "vf.hpp"
 #include "vf_contract.hpp"
 
@@ -18,7 +18,10 @@ namespace {
 using namespace c19;
 #define NOINL __attribute__((noinline))
 
-constexpr unsigned NGROUP = 8;
+constexpr unsigned NGROUP = 9;
+#ifndef VF_GMASK
+    #define VF_GMASK 0x1FF
+#endif
 
 vf::Spec spec(vf::Tier t)
 {
@@ -100,9 +103,9 @@ struct Caps {
     static constexpr bool rss = Rss, stride = Stride, exh = Exh;
 };
 using CapsCanonical = Caps<true, true, true>;
-using CapsStride    = Caps<false, true, false>;
+using CapsStride    = Caps<true, true, false>;
 using CapsTransLR   = Caps<true, true, false>;
-using CapsTransS    = Caps<false, true, false>;
+using CapsTransS    = Caps<true, true, false>;
 
 // ------------------------------------------------------------------ mdspan
 // addresses through operator()(index_type...) + extents + data_handle: run after every constructor form
@@ -961,24 +964,240 @@ NOINL void mdarray_static(Ctx& c)
     }
 }
 
+// ------------------------------------------------------------------ two objects in different run-time states
+// (other dynamic extents, other strides - also with all-static extents -, other storage): swap, copy/move assignment,
+// copy/move construction; afterwards BOTH objects are compared in full with the model of the state they must hold:
+// storage size, extents, strides, every element's address, value (cell index) and owner (which storage it lives in).
+#ifndef VF_TWO
+    #define VF_TWO 1
+#endif
+template <typename C, typename A>
+NOINL void arr_state(Ctx const& c, std::string const& s, char const* op, A const& a, Model const& mod, int owner, std::uint64_t salt)
+{
+    constexpr std::size_t R = A::rank();
+    arr_light(c, s, op, a, mod, salt); // storage size, extents, every address (inside the container), read
+    crumb_op(c, s, op);
+    if constexpr (C::stride && R > 0) {
+        for (std::size_t r = 0; r < R; ++r) { expect_int(r == 0 ? "stride(0)" : (r + 1 == R ? "stride(rank-1)" : "stride(middle)"), (LL)a.stride(r), mod.st[r]); }
+    }
+    if constexpr (C::rss) { expect_int("mapping().required_span_size()", (LL)a.mapping().required_span_size(), mod.span()); }
+    Cell const* const base = a.container_data();
+    LL const ncells        = (LL)a.container_size();
+    Arr i{};
+    bool bad = false;
+    if (!mod.empty()) {
+        do {
+            crumb_idx(c, s, op, i, R);
+            Cell const& ref = call_idx<Idx, R>(a, i);
+            LL const at     = (LL)(&ref - base);
+            if (at >= 0 && at < ncells && !bad && (ref.lin != (int)mod.off(i) || ref.tag != owner)) {
+                bad = true;
+                vf::diverge(ref.tag != owner ? "element-value:from-the-other-object's-storage" : "element-value:wrong-cell", "{" + vf::to_s(ref.lin) + ",owner " + vf::to_s(ref.tag) + "}",
+                    "{" + vf::to_s(mod.off(i)) + ",owner " + vf::to_s(owner) + "}");
+            }
+        } while (next(i, mod.e, R));
+    }
+    vf::cover_bulk("two-objects:element-values", (std::uint64_t)mod.size(), vf::mix(c.h, salt + 7), (std::uint64_t)mod.size());
+}
+template <typename A>
+void own(A& a, int owner)
+{
+    Cell* const d = a.container_data();
+    for (std::size_t k = 0; k < (std::size_t)a.container_size(); ++k) { d[k] = Cell{(int)k, owner}; }
+}
+template <typename C, typename A, typename M, typename Mk>
+NOINL void two_arrays(Ctx& c, std::string const& s, M const& m1, Model const& mod1, M const& m2, Model const& mod2, Mk make_container)
+{
+    c.extra = "state1: extents=" + show(mod1.e, mod1.R) + " strides=" + show(mod1.st, mod1.R) + " state2: extents=" + show(mod2.e, mod2.R) + " strides=" + show(mod2.st, mod2.R);
+    crumb_op(c, s, "mdarray(mapping,container&&)");
+    A a(m1, make_container(mod1.span()));
+    A b(m2, make_container(mod2.span()));
+    own(a, 1);
+    own(b, 2);
+    arr_state<C>(c, s, "mdarray(mapping,container&&)", a, mod1, 1, 201);
+    arr_state<C>(c, s, "mdarray(mapping,container&&)", b, mod2, 2, 202);
+    crumb_op(c, s, "swap(mdarray&,mdarray&)");
+    swap(a, b);
+    arr_state<C>(c, s, "swap(mdarray&,mdarray&)", a, mod2, 2, 203);
+    arr_state<C>(c, s, "swap(mdarray&,mdarray&)", b, mod1, 1, 204);
+    crumb_op(c, s, "operator=(mdarray const&)");
+    a = b; // a held state 2
+    arr_state<C>(c, s, "operator=(mdarray const&)", a, mod1, 1, 205);
+    arr_state<C>(c, s, "operator=(mdarray const&)", b, mod1, 1, 206);
+    expect_bool("operator=(mdarray const&):own-storage", mod1.span() == 0 || a.container_data() != b.container_data(), true);
+    {
+        A t(m2, make_container(mod2.span()));
+        own(t, 2);
+        crumb_op(c, s, "operator=(mdarray&&)");
+        b = std::move(t); // b held state 1
+        arr_state<C>(c, s, "operator=(mdarray&&)", b, mod2, 2, 207);
+        arr_state<C>(c, s, "operator=(mdarray&&)", a, mod1, 1, 208);
+    }
+    crumb_op(c, s, "mdarray(mdarray const&)");
+    A cc(b);
+    arr_state<C>(c, s, "mdarray(mdarray const&)", cc, mod2, 2, 209);
+    crumb_op(c, s, "mdarray(mdarray&&)");
+    A mc(std::move(cc));
+    arr_state<C>(c, s, "mdarray(mdarray&&)", mc, mod2, 2, 210);
+    c.extra.clear();
+}
+
+template <typename C, typename MD>
+NOINL void md_state(Ctx const& c, std::string const& s, char const* op, MD const& md, Cell* base, LL ncells, Model const& mod, int owner, std::uint64_t salt)
+{
+    constexpr std::size_t R = MD::rank();
+    md_light(c, s, op, md, base, mod, salt); // data handle, extents, every address
+    crumb_op(c, s, op);
+    if constexpr (C::stride && R > 0) {
+        for (std::size_t r = 0; r < R; ++r) { expect_int(r == 0 ? "stride(0)" : (r + 1 == R ? "stride(rank-1)" : "stride(middle)"), (LL)md.stride(r), mod.st[r]); }
+    }
+    if constexpr (C::rss) { expect_int("mapping().required_span_size()", (LL)md.mapping().required_span_size(), mod.span()); }
+    Arr i{};
+    bool bad = false;
+    if (!mod.empty()) {
+        do {
+            crumb_idx(c, s, op, i, R);
+            Cell const& ref = call_idx<Idx, R>(md, i);
+            LL const at     = (LL)(&ref - base);
+            if (at >= 0 && at < ncells && !bad && (ref.lin != (int)mod.off(i) || ref.tag != owner)) {
+                bad = true;
+                vf::diverge(ref.tag != owner ? "element-value:from-the-other-object's-storage" : "element-value:wrong-cell", "{" + vf::to_s(ref.lin) + ",owner " + vf::to_s(ref.tag) + "}",
+                    "{" + vf::to_s(mod.off(i)) + ",owner " + vf::to_s(owner) + "}");
+            }
+        } while (next(i, mod.e, R));
+    }
+    vf::cover_bulk("two-objects:element-values", (std::uint64_t)mod.size(), vf::mix(c.h, salt + 7), (std::uint64_t)mod.size());
+}
+template <typename C, typename MD, typename M>
+NOINL void two_views(Ctx& c, std::string const& s, M const& m1, Model const& mod1, M const& m2, Model const& mod2)
+{
+    c.extra = "state1: extents=" + show(mod1.e, mod1.R) + " strides=" + show(mod1.st, mod1.R) + " state2: extents=" + show(mod2.e, mod2.R) + " strides=" + show(mod2.st, mod2.R);
+    Block b1(mod1.span()), b2(mod2.span());
+    for (LL k = 0; k < b1.size(); ++k) { b1.data()[k] = Cell{(int)k, 1}; }
+    for (LL k = 0; k < b2.size(); ++k) { b2.data()[k] = Cell{(int)k, 2}; }
+    Cell* const p1 = b1.data();
+    Cell* const p2 = b2.data();
+    crumb_op(c, s, "mdspan(ptr,mapping)");
+    MD x(p1, m1);
+    MD y(p2, m2);
+    md_state<C>(c, s, "mdspan(ptr,mapping)", x, p1, b1.size(), mod1, 1, 301);
+    md_state<C>(c, s, "mdspan(ptr,mapping)", y, p2, b2.size(), mod2, 2, 302);
+    crumb_op(c, s, "mdspan(mdspan const&)");
+    MD cy(y);
+    md_state<C>(c, s, "mdspan(mdspan const&)", cy, p2, b2.size(), mod2, 2, 303);
+    md_state<C>(c, s, "mdspan(mdspan const&)", x, p1, b1.size(), mod1, 1, 304);
+    crumb_op(c, s, "mdspan(mdspan&&)");
+    MD my(std::move(cy));
+    md_state<C>(c, s, "mdspan(mdspan&&)", my, p2, b2.size(), mod2, 2, 305);
+    // assignment / swap: std::mdspan has both; detected, because etl::mdspan may not provide them (see proposed/C19/findings3.jsonl)
+    if constexpr (std::is_copy_assignable_v<MD> && std::is_move_assignable_v<MD>) {
+        crumb_op(c, s, "operator=(mdspan const&)");
+        x = y; // x viewed storage 1 with mapping 1
+        md_state<C>(c, s, "operator=(mdspan const&)", x, p2, b2.size(), mod2, 2, 306);
+        md_state<C>(c, s, "operator=(mdspan const&)", y, p2, b2.size(), mod2, 2, 307);
+        crumb_op(c, s, "operator=(mdspan&&)");
+        x = MD(p1, m1);
+        md_state<C>(c, s, "operator=(mdspan&&)", x, p1, b1.size(), mod1, 1, 308);
+        if constexpr (requires { swap(x, y); }) {
+            crumb_op(c, s, "swap(mdspan&,mdspan&)");
+            swap(x, y);
+            md_state<C>(c, s, "swap(mdspan&,mdspan&)", x, p2, b2.size(), mod2, 2, 309);
+            md_state<C>(c, s, "swap(mdspan&,mdspan&)", y, p1, b1.size(), mod1, 1, 310);
+        }
+    } else if (vf::want_sample("absent:mdspan-assignment")) {
+        vf::sample("absent:mdspan-assignment", "etl::mdspan is neither copy- nor move-assignable (and has no swap) on this tree: operator=/swap of mdspan not exercised, not counted as passed");
+    }
+    b1.b.check("view 1 cells");
+    b2.b.check("view 2 cells");
+    c.extra.clear();
+}
+
+template <typename E>
+NOINL void two_objects(Ctx& c)
+{
+#if VF_TWO
+    constexpr std::size_t R = E::rank();
+    Arr const sh2           = other_shape(*c.p, c.shape); // differs at every dynamic position; equal for all-static patterns
+    if (!fits<Idx>(product(sh2, R))) { return; }
+    E const e1 = make_extents<E>(c.shape);
+    E const e2 = make_extents<E>(sh2);
+    auto bufvec = [](LL n) { return indexed_container(n); };
+    {
+        using L = etl::layout_left;
+        using M = L::mapping<E>;
+        two_arrays<CapsCanonical, etl::mdarray<Cell, E, L, BufVec<Cell>>>(c, std::string("mdarray<layout_left,") + IDXN + ",BufVec>", M(e1), model_left(c.shape, R), M(e2), model_left(sh2, R), bufvec);
+        two_views<CapsCanonical, etl::mdspan<Cell, E, L>>(c, std::string("mdspan<layout_left,") + IDXN + ">", M(e1), model_left(c.shape, R), M(e2), model_left(sh2, R));
+    }
+    // (layout_right is symmetrical to layout_left here; its swap/assignment against a default-constructed object is in mdarray_canonical)
+    if constexpr (R > 0) {
+        // layout_stride: the strides are run-time state even when every extent is static
+        using L         = etl::layout_stride;
+        using M         = L::mapping<E>;
+        unsigned const h = (unsigned)(c.h >> 8);
+        Model const modA = model_strided(c.shape, R, factorial(R) - 1, 1, 1);   // row-major, padded
+        Model const modB = model_strided(sh2, R, h % factorial(R), 0, 2);       // a permutation, every second element
+        if (stride_model_fits(modA) && stride_model_fits(modB)) {
+            auto mk = [](E const& e, Model const& mod) {
+                etl::array<Idx, R> sa{};
+                for (std::size_t r = 0; r < R; ++r) { sa[r] = static_cast<Idx>(mod.st[r]); }
+                return M(e, sa);
+            };
+            two_arrays<CapsStride, etl::mdarray<Cell, E, L, BufVec<Cell>>>(c, std::string("mdarray<layout_stride,") + IDXN + ",BufVec>", mk(e1, modA), modA, mk(e2, modB), modB, bufvec);
+            two_views<CapsStride, etl::mdspan<Cell, E, L>>(c, std::string("mdspan<layout_stride,") + IDXN + ">", mk(e1, modA), modA, mk(e2, modB), modB);
+            if constexpr (E::rank_dynamic() == 0) {
+                // all-static extents with etl::array storage: row-major vs column-major strides over N = product cells
+                constexpr std::size_t N = static_size<E, std::make_index_sequence<R>>::value;
+                if constexpr (N > 0) {
+                    Model const rm = model_strided(c.shape, R, factorial(R) - 1, 0, 1), cm = model_strided(c.shape, R, 0, 0, 1);
+                    auto arr = [](LL) { return etl::array<Cell, N>{}; };
+                    two_arrays<CapsStride, etl::mdarray<Cell, E, L, etl::array<Cell, N>>>(c, std::string("mdarray<layout_stride,") + IDXN + ",etl::array>", mk(e1, rm), rm, mk(e1, cm), cm, arr);
+                }
+            }
+        }
+    }
+#else
+    (void)c;
+#endif
+}
+
 template <std::size_t K>
 struct Run {
+    // VF_GMASK selects the operation groups compiled into this binary (bit g = group g): lets props split the
+    // expensive groups over several units for parallel compilation
+    template <unsigned G>
+    static constexpr bool on = ((VF_GMASK >> G) & 1U) != 0;
     static void run(Ctx& c)
     {
-        using E = sel_t<K>;
+        using E                  = sel_t<K>;
+        constexpr std::size_t GE = VF_PLO + K * VF_PSTEP;
         switch (c.group) {
-        case 0: mdspan_canonical<etl::layout_left, E, VF_PLO + K * VF_PSTEP>(c); break;
-        case 1: mdspan_canonical<etl::layout_right, E, VF_PLO + K * VF_PSTEP>(c); break;
+        case 0:
+            if constexpr (on<0>) { mdspan_canonical<etl::layout_left, E, GE>(c); }
+            break;
+        case 1:
+            if constexpr (on<1>) { mdspan_canonical<etl::layout_right, E, GE>(c); }
+            break;
         case 2:
-            if constexpr (E::rank() > 0) { mdspan_strided<E>(c); }
+            if constexpr (on<2> && E::rank() > 0) { mdspan_strided<E>(c); }
             break;
-        case 3: mdspan_transposed<E>(c); break;
-        case 4: mdarray_canonical<etl::layout_left, E>(c); break;
-        case 5: mdarray_canonical<etl::layout_right, E>(c); break;
+        case 3:
+            if constexpr (on<3>) { mdspan_transposed<E>(c); }
+            break;
+        case 4:
+            if constexpr (on<4>) { mdarray_canonical<etl::layout_left, E>(c); }
+            break;
+        case 5:
+            if constexpr (on<5>) { mdarray_canonical<etl::layout_right, E>(c); }
+            break;
         case 6:
-            if constexpr (E::rank() > 0) { mdarray_strided<E>(c); }
+            if constexpr (on<6> && E::rank() > 0) { mdarray_strided<E>(c); }
             break;
-        case 7: mdarray_static<E>(c); break;
+        case 7:
+            if constexpr (on<7>) { mdarray_static<E>(c); }
+            break;
+        case 8:
+            if constexpr (on<8>) { two_objects<E>(c); }
+            break;
         default: break;
         }
     }
@@ -1004,6 +1223,7 @@ void run_case(vf::Case& c)
         x.shape = random_shape<Idx>(*x.p, c.rng, 8, (x.group == 2 || x.group == 3 || x.group == 6) ? 4 : 1);
     }
     if (!fits<Idx>(product(x.shape, x.p->rank))) { return; } // domain: index space size representable
+    if (((VF_GMASK >> x.group) & 1U) == 0) { return; } // group not compiled into this unit
     if (x.group == 3 && x.p->rank != 2) { return; }
     if (x.group == 7 && x.p->rd != 0) { return; }
     x.sit        = situation(*x.p, x.shape);
@@ -1012,7 +1232,7 @@ void run_case(vf::Case& c)
     x.nontrivial = x.p->rank > 0;
     {
         static char const* const gname[NGROUP] = {"mdspan<layout_left>", "mdspan<layout_right>", "mdspan<layout_stride>", "mdspan<layout_transpose<L>>", "mdarray<layout_left,BufVec>",
-            "mdarray<layout_right,BufVec>", "mdarray<layout_stride,BufVec>", "mdarray<left|right,etl::array>"};
+            "mdarray<layout_right,BufVec>", "mdarray<layout_stride,BufVec>", "mdarray<left|right,etl::array>", "two objects in different states: swap/assign/copy/move"};
         std::string const lab = std::string("md:") + x.p->cls;
         if ((x.p->rank == 0 || product(x.shape, x.p->rank) > 1) && vf::want_sample(lab.c_str())) {
             vf::sample(lab.c_str(), "%s over extents<%s,%s> shape %s: every constructor form, then all %lld elements by address (== data()+model offset), read-through (cell holds its own index) and write-through",
@@ -1024,4 +1244,6 @@ void run_case(vf::Case& c)
 }
 } // namespace
 
-VF_MAIN("C19", "C19_md_" VF_IDX_NAME, spec, run_case)
+#define VF_STR2(x) #x
+#define VF_STR(x) VF_STR2(x)
+VF_MAIN("C19", "C19_md_" VF_IDX_NAME "_g" VF_STR(VF_GMASK), spec, run_case)
